@@ -35,6 +35,9 @@ type HCReconfResult struct {
 	FailsToUnhealthy int    `json:"failsToUnhealthy"` // consecutive failed rounds until connections were refused (0: never within the bound)
 	OKsToHealthy     int    `json:"oksToHealthy"`     // consecutive successful rounds until connections were relayed again (0: never)
 	Trace            string `json:"trace"`            // per round: F/S = result, then U/H = what the next connection saw
+	History          string `json:"history"`          // "update" (health check from the start) | "enable-retune" | "enable-disable-enable"
+	ProbesAfterStop  int    `json:"probesAfterStop"`  // probes that reached the backend after Stop had returned (+ 30 ms grace)
+	Panic            string `json:"panic,omitempty"`  // a call into the processor panicked
 	Err              string `json:"err,omitempty"`
 }
 
@@ -56,8 +59,13 @@ func usableNow(addr string, id int) (bool, error) {
 	return false, nil
 }
 
-func runHCReconf(ic bool, from, to [2]int) (res HCReconfResult) {
-	res = HCReconfResult{IntervalChanged: ic, From: from, To: to}
+func runHCReconf(ic bool, from, to [2]int, history string) (res HCReconfResult) {
+	res = HCReconfResult{IntervalChanged: ic, From: from, To: to, History: history}
+	defer func() {
+		if x := recover(); x != nil {
+			res.Panic = fmt.Sprint(x)
+		}
+	}()
 	fx, err := newFixture(1)
 	if err != nil {
 		res.Err = err.Error()
@@ -65,8 +73,10 @@ func runHCReconf(ic bool, from, to [2]int) (res HCReconfResult) {
 	}
 	defer fx.close()
 	port := sut.FreePort()
-	cfg := tcpConfig(port, "rr", false)
-	cfg.HealthCheck.RiseThreshold, cfg.HealthCheck.FallThreshold = uint32(from[0]), uint32(from[1])
+	cfg := tcpConfig(port, "rr", history != "update") // the other histories start WITHOUT a health check
+	if cfg.HealthCheck != nil {
+		cfg.HealthCheck.RiseThreshold, cfg.HealthCheck.FallThreshold = uint32(from[0]), uint32(from[1])
+	}
 	p, err := proc.New(sut.UniqueName("c15hc"), cfg, nil)
 	if err != nil {
 		res.Err = "proc.New: " + err.Error()
@@ -97,6 +107,12 @@ func runHCReconf(ic bool, from, to [2]int) (res HCReconfResult) {
 		if !sut.StopWithin(p, 10*time.Second) && res.Err == "" {
 			res.Err = "processor did not stop"
 		}
+		// after Stop no probe may reach the backend any more (the releaser keeps answering, so a
+		// monitor that survived keeps probing)
+		time.Sleep(30 * time.Millisecond)
+		n0 := fx.bs[0].probeCount()
+		time.Sleep(8 * hcInterval)
+		res.ProbesAfterStop = fx.bs[0].probeCount() - n0
 		close(stop)
 	}()
 	if err := waitProxy(addr, 5*time.Second); err != nil {
@@ -104,6 +120,36 @@ func runHCReconf(ic bool, from, to [2]int) (res HCReconfResult) {
 		return
 	}
 	p.OnSvcHostAdd([]*host.Host{host.New(fx.bs[0].addr)})
+	withHC := func(th [2]int) error {
+		c := tcpConfig(port, "rr", false)
+		c.HealthCheck.RiseThreshold, c.HealthCheck.FallThreshold = uint32(th[0]), uint32(th[1])
+		return p.OnSvcConfigUpdate(c)
+	}
+	switch history {
+	case "enable-retune": // health checking is switched on at run time, with the `from` thresholds
+		if err := withHC(from); err != nil {
+			res.Err = "OnSvcConfigUpdate (enable): " + err.Error()
+			return
+		}
+	case "enable-disable-enable":
+		if err := withHC(from); err != nil {
+			res.Err = "OnSvcConfigUpdate (enable): " + err.Error()
+			return
+		}
+		if err := r.waitRound([]int{1}); err != nil {
+			res.Err = err.Error()
+			return
+		}
+		if err := p.OnSvcConfigUpdate(tcpConfig(port, "rr", true)); err != nil { // health check removed from the config
+			res.Err = "OnSvcConfigUpdate (disable): " + err.Error()
+			return
+		}
+		fx.releaseRound()
+		if err := withHC(from); err != nil {
+			res.Err = "OnSvcConfigUpdate (enable again): " + err.Error()
+			return
+		}
+	}
 	if err := r.waitRound([]int{1}); err != nil {
 		res.Err = err.Error()
 		return
@@ -171,6 +217,7 @@ func runHCReconf(ic bool, from, to [2]int) (res HCReconfResult) {
 func cmdHCReconf(args []string) error {
 	fs := flag.NewFlagSet("c15-hc-e2e", flag.ContinueOnError)
 	out := fs.String("out", "", "results (ndjson)")
+	disable := fs.Bool("disable", false, "also run the enable / disable / enable history")
 	if err := fs.Parse(args); err != nil {
 		return err
 	}
@@ -181,8 +228,14 @@ func cmdHCReconf(args []string) error {
 	defer w.Close()
 	for _, ic := range []bool{false, true} {
 		for _, ft := range [][2][2]int{{{1, 1}, {3, 3}}, {{3, 3}, {1, 1}}, {{1, 2}, {2, 3}}} {
-			w.Write(runHCReconf(ic, ft[0], ft[1]))
+			w.Write(runHCReconf(ic, ft[0], ft[1], "update"))
 		}
+	}
+	// the service is created WITHOUT a health check; it is enabled at run time and retuned later
+	w.Write(runHCReconf(false, [2]int{1, 1}, [2]int{3, 3}, "enable-retune"))
+	w.Write(runHCReconf(true, [2]int{2, 2}, [2]int{1, 3}, "enable-retune"))
+	if *disable {
+		w.Write(runHCReconf(false, [2]int{1, 1}, [2]int{2, 2}, "enable-disable-enable"))
 	}
 	return nil
 }
